@@ -47,7 +47,17 @@ def tobase(n, r):
 
 
 def enc(s):
-    return "s:" + s.replace(" ", "~")
+    """op-line encoding of a JS string: ASCII without blanks; '~' = space; \\uXXXX for everything else"""
+    out = []
+    for ch in s:
+        o = ord(ch)
+        if ch == " ":
+            out.append("~")
+        elif ch in "~\\" or o < 0x21 or o > 0x7e:
+            out.append("\\u%04x" % o)
+        else:
+            out.append(ch)
+    return "s:" + "".join(out)
 
 
 def halfway_digits(k):
@@ -435,43 +445,14 @@ def int_value_of(op):
 
 
 def signature(op, res, verdict):
-    """canonical class of a rejected conversion (matched against known_findings.d/C12.json)"""
+    """canonical class of a rejected conversion: operation + the checker's reason (matched against
+    known_findings.d/C12.json; all entries there are `fixed` now and suppress nothing)"""
     w = op.split(" ")
     why = verdict[4:] if verdict.startswith("bad ") else verdict
-    iv = int_value_of(op)
-    if iv is not None and iv[2] >= TWO63:
-        kind, r, _ = iv
-        if kind == "pint":
-            return "parseInt:magnitude>=2^63:float-accumulation"
-        if kind == "lit" and r == 16 and not res.startswith("ERR"):
-            return "literal:hex>=2^63:float-accumulation"
-        if kind == "lit" and r in (2, 8) and res.startswith("ERR"):
-            return "literal:bin-oct>=2^63:rejected"
-        if kind == "num" and res in ("7ff8000000000001", "7ff8000000000000"):
-            return "Number(string):prefixed-integer>=2^63:NaN"
-    # conversions of a double: classify the input
-    if w[0] in ("fixed", "exp", "prec", "ftostr", "radix", "fbase", "tostr", "expu", "rt"):
-        try:
-            b = int(w[1], 16)
-        except ValueError:
-            b = 0
-        neg, e, m = b >> 63, (b >> 52) & 2047, b & ((1 << 52) - 1)
-        precision_mode = w[0] in ("fixed", "exp", "prec") or (w[0] == "ftostr" and w[2] in ("2", "3", "4"))
-        if precision_mode and e == 0 and m != 0:
-            return "precision-modes:subnormal-input:wrong-digits-or-hang"
-        shortest_mode = w[0] in ("tostr", "expu", "rt") or (w[0] == "ftostr" and w[2] in ("0", "1")) or (w[0] == "radix" and w[2] == "10")
-        if shortest_mode and e == 0 and m != 0:
-            return "shortest-mode:subnormal-input:bignum-fallback-wrong-digits"
-        if precision_mode and neg and res.startswith("."):
-            return "precision-modes:negative-input:carry-into-sign"
-        if w[0] in ("radix", "fbase") and neg and e < 1023 and why == "sign" and not res.startswith("-"):
-            return "toString(radix):negative-fraction:sign-dropped"
     if res == "TIMEOUT":
         why = "hang"
-    if w[0] == "num" and len(w) > 1:
-        t = w[1][2:].replace("~", " ").strip()
-        if len(t) > 3 and t[0] == "0" and t[1] in "xXoObB" and t[2] in "+-" and res not in ("7ff8000000000001", "7ff8000000000000"):
-            return "Number(string):sign-after-radix-prefix:accepted"
+    elif res == "CRASH" or res.startswith("PANIC"):
+        why = "crash"
     if w[0] == "ftostr":
         return "ftostr-mode%s:%s" % (w[2], why)
     return "%s:%s" % (w[0], why)
